@@ -247,7 +247,7 @@ static void two_fields(const std::string & oname, unsigned T, unsigned rep, uint
     using V = typename F::view_t;
     const std::string nm = std::string("two-fields/") + iname[INTERP] + oname;
     vh::set_case("%s T=%u rep=%u", nm.c_str(), T, rep);
-    const std::size_t extA[3] = {16, 16, 16}, extB[3] = {5, 12, 7};
+    const std::size_t extA[4] = {16, 16, 16, 6}, extB[4] = {5, 12, 7, 4};
     auto build = [&](const std::size_t * e) {
         covfie::utility::nd_size<N> ext;
         std::size_t mx = 0;
@@ -307,18 +307,18 @@ static void two_fields(const std::string & oname, unsigned T, unsigned rep, uint
     for (unsigned t = 0; t < T; ++t) {
         vh::Rng rng(seed * 7368787 + t * 131 + rep);
         const std::size_t * e = (t & 1) ? extB : extA;
-        ops[t].resize(nops * 3);
+        ops[t].resize(nops * 4);
         for (unsigned i = 0; i < nops; ++i)
-            for (std::size_t k = 0; k < 3; ++k) {
+            for (std::size_t k = 0; k < 4; ++k) {
                 float x = (float)(rng.unit() * (double)(e[k < N ? k : 0] - 1.001));
-                ops[t][i * 3 + k] = INTERP == I_NONE ? (float)(std::size_t)x : x;
+                ops[t][i * 4 + k] = INTERP == I_NONE ? (float)(std::size_t)x : x;
             }
     }
     std::vector<uint64_t> want(T, 0), got(T, 0);
     {
         V va(fa), vb(fb);
         for (unsigned t = 0; t < T; ++t)
-            for (unsigned i = 0; i < nops; ++i) want[t] = want[t] * 1099511628211ull + lookup((t & 1) ? vb : va, &ops[t][i * 3]);
+            for (unsigned i = 0; i < nops; ++i) want[t] = want[t] * 1099511628211ull + lookup((t & 1) ? vb : va, &ops[t][i * 4]);
     }
     std::vector<std::thread> th;
     std::atomic<unsigned> go{0};
@@ -332,7 +332,7 @@ static void two_fields(const std::string & oname, unsigned T, unsigned rep, uint
             uint64_t d = 0;
             for (unsigned i = 0; i < nops; ++i) {
                 if (i % 64 == 0) ticks[t].push_back(g_ticket.fetch_add(1, std::memory_order_relaxed));
-                d = d * 1099511628211ull + lookup(v, &ops[t][i * 3]);
+                d = d * 1099511628211ull + lookup(v, &ops[t][i * 4]);
             }
             got[t] = d;
         });
@@ -607,9 +607,16 @@ int main(int argc, char ** argv)
     cold_start<cb::hilbert<cv::vector_d<long, 2>, arr3>, I_NN, 2, K_HILBERT>("hilbert<long>", 8, seed);
 #endif
 #if defined(SH_STRIDED)
+    // four input dimensions: the interpolator's generic 2^N branch (1-3 take the dimension-specialised ones)
+    for (unsigned rep = 0; rep < R; ++rep)
+        for (unsigned T : {2u, 8u}) {
+            two_fields<cb::strided<cv::size4, arr3>, I_LINEAR, 4>("strided<size4>", T, rep, seed);
+            two_fields<cb::strided<cv::size4, arr3>, I_NN, 4>("strided<size4>", T, rep, seed);
+        }
     all_stacks<cb::strided<cv::size3, arr3>, 3>("strided", seed, R);
 #endif
 #if defined(SH_MORTON)
+    for (unsigned rep = 0; rep < R; ++rep) two_fields<cb::morton<cv::size4, arr3, true>, I_LINEAR, 4>("morton<size4,true>", 8, rep, seed);
     all_stacks<cb::morton<cv::size3, arr3, true>, 3>("morton<use_bmi2=true>", seed, R);
     all_stacks<cb::morton<cv::size3, arr3, false>, 3>("morton<use_bmi2=false>", seed, R);
 #endif
